@@ -60,11 +60,11 @@ def check(an: Analysis) -> None:
             coro = tasks[0].ast.args[0] if tasks[0].ast.args else None  # type: ignore[union-attr]
             if not (isinstance(coro, ast.Call) and dotted(coro.func) == "self._function"):
                 ob2.fail(fi, tasks[0].ast, "the task does not run the wrapped function")
-            miss = scenario(g, s.env(present=False))
+            miss = s.sc(present=False).skip
             lo, hi = g.count_range(lambda n: n in tasks, g.entry, lambda n: n.kind == "exit-return", skip_edge=both(miss, normal_only))
             if (lo, hi) != (1, 1):
                 ob2.fail(fi, tasks[0].ast, f"a miss starts {lo}..{hi} invocations (must be exactly one)")
-            hit = scenario(g, s.env(present=True, expire=None))
+            hit = s.sc(present=True, expire=None).skip
             w = g.search([g.entry], lambda n: n in tasks, skip_edge=hit)
             if w is not None:
                 ob2.fail(fi, tasks[0].ast, "a hit on an unexpired (possibly in-flight) entry starts another invocation", CFG.show_path(w))
